@@ -427,7 +427,9 @@ func Run(s Sess) mon.Result {
 				obs["auth_configured_device_did_not_ask"]++
 			}
 		}
-		stale := cached != before.mode
+		// stale: an operation that consults the cached level (SendCommand/SendCommands) starts while the cache
+		// differs from the device's mode
+		stale := cached != before.mode && (op.Kind == "command" || op.Kind == "commands")
 		if stale {
 			obs["ops_with_stale_cached_level"]++
 		}
@@ -525,8 +527,8 @@ func init() {
 			"the driver itself (AcquirePriv, SendCommand(s), SendConfig(s) with/without WithPrivilegeLevel, SendInteractive), plus unknown-target probes. Sampled part: random " +
 			"trees with 6-8 levels (chain/star/caterpillar/Pruefer) with the same tour, and random operation sequences (<=12 ops) on trees with 2-6 levels; names, prompts, " +
 			"transition commands, which edges ask for the secret, start mode, default level, newline, return char, read size, read delay, search depth and read segmentation are PRNG-drawn. " +
-			"Non-trivial = the case contains a call whose tree path has >=2 steps, or that crosses an edge on which the device asked for the secret, or that started with a cached level " +
-			"different from the device's mode. Distinct = distinct descriptor hash.",
+			"Non-trivial = the case contains a call whose tree path has >=2 steps, or that crosses an edge on which the device asked for the secret, or a SendCommand(s) call (the operations that consult the cached level) " +
+			"issued while the cached level differs from the device's mode. Distinct = distinct descriptor hash.",
 		Assumptions: []string{
 			"the device is the causal devsim.CLI model: echo, newline, output, prompt; a transition command is honoured only in the mode it belongs to, anything else prints an error line and changes nothing; workload commands never change the mode",
 			"every level's prompt is attributed to exactly that level by the configured patterns minus not-contains (checked by brute force with the session's own regexps; candidates resampled), the password prompt matches no level pattern and no level prompt matches the password pattern",
@@ -542,7 +544,7 @@ func init() {
 			c.Decode(&s)
 			return Run(s)
 		},
-		Workers:     func(string) int { return 8 },
+		Workers: func(string) int { return 8 },
 		Parallel: func(tier string) int {
 			if tier == "thorough" {
 				return 8 // latency-bound (read delays), no timing verdicts in this property
